@@ -601,6 +601,9 @@ def regenerate(target_ids, repo):
     out = {}
     trees = {}
     for tid in target_ids:
+        if tid not in tg.TARGETS:
+            out[tid] = {'ok': False, 'error': f'target {tid} is not defined (target files that failed to load: {getattr(tg, "BROKEN_FILES", {})})'}
+            continue
         spec = tg.TARGETS[tid]
         path = os.path.join(GEN_DIR, f'{tid}.lean')
         info = {'ok': True, 'file': os.path.relpath(path, VERIF_ROOT), 'source': spec['file'], 'changed': False}
